@@ -170,6 +170,10 @@ func (eng *Engine) verifyFunc(fn *ssa.Function) (res *FuncResult) {
 		for _, cl := range c.byKind("requires") {
 			vc.assume(env.boolOf(cl.Expr))
 		}
+		vc.topFn, vc.topContract = fn, c
+		if decs := funcDecreases(c); len(decs) > 0 {
+			vc.topVariant = vc.define("variant", "Int", env.intOf(decs[0].Expr))
+		}
 	}
 	eng.assumeGlobalInvs(vc, fn, st)
 	_, _, exit := vc.run(fn, args, fvs, st, "true", nil, "")
@@ -415,6 +419,13 @@ func cmdCheck(args []string) int {
 					ob.Result = "refuted"
 				default:
 					ob.Result = "undecided"
+					// candidate counterexample from the quantifier-free part (diagnostic only)
+					rq := runSolver(solvers[0], "(set-option :produce-models true)\n"+dropQuantified(qy)+"(check-sat)\n(get-value ("+strings.Join(j.fr.vc.inputs, " ")+"))\n", 3)
+					if rq.Status == "sat" {
+						ob.Model = "candidate (quantified assumptions dropped):\n" + rq.Model
+					} else {
+						ob.Model = "quantifier-free part is " + rq.Status
+					}
 				}
 			}
 		}()
